@@ -220,7 +220,7 @@ def harnesses(tier):
     q = tier == "quick"
     hs = [Harness("concrete", concrete_validation, concrete=True)]
     for model in ("HEM", "MERTON", "VG", "CGMY"):
-        hs.append(Harness(f"cumulants.{model}", h_cumulants, {"model": model, "order": 4 if q else 6}, max_paths=400, timeout_ms=90000))
+        hs.append(Harness(f"cumulants.{model}", h_cumulants, {"model": model, "order": 6}, max_paths=400, timeout_ms=90000))
     for model in ("HEM", "MERTON"):
         hs.append(Harness(f"moments.{model}", h_moments, {"model": model}, max_paths=400, timeout_ms=90000))
     L = 2 if q else 3
@@ -242,7 +242,7 @@ EXPECT = ["C10.cumulant_is_t_times_derivative_of_exponent_at_zero", "C10.exponen
 
 
 def main(tier):
-    bounds = {"cumulants": "HEM, Merton, VG, CGMY (y not in {0,1}) with all parameters symbolic; Taylor order 4 (quick) / 6 (thorough)",
+    bounds = {"cumulants": "HEM, Merton, VG, CGMY (y not in {0,1}) with all parameters symbolic; Taylor order 6 (cumulants 1, 2, 4, 6 of every model)",
               "representations": "every sequence of length <= 2 (quick) / 3 (thorough) of the four representations, finite and infinite variation",
               "martingale": "Black-Scholes, HEM, Merton exponential models, all parameters, all t",
               "outside": "equality of the exponent with the Lévy-Khintchine integral away from its Taylor data at 0 (a transcendental integral identity); CGMY y in {0,1} branches and "
